@@ -91,7 +91,7 @@ pub fn run_one(w: &Value) -> Result<Value, String> {
                 };
                 let state = match s["vis"].as_u64().unwrap() { 1 => json!("hidden"), 2 => json!("veryHidden"), _ => Value::Null };
                 json!({"name": name_of(s["name"].as_str().unwrap()), "file": format!("sheet{}.xml", i + 1), "dir": dir, "raw": raw, "state": state,
-                       "attr_order": nz["order"], "tokens": [{"k": "row", "r": 0}, {"k": "c", "r": [0, 0], "s": 1, "v": "44000"}, {"k": "rowend"}]})
+                       "attr_order": nz["order"], "tokens": [{"k": "row", "r": 0}, if i % 2 == 0 { json!({"k": "c", "r": [0, 0], "s": 1, "v": "44000"}) } else { json!({"k": "c", "r": [0, 0], "s": 1, "f": "A2+1", "v": "44000"}) }, {"k": "rowend"}]})
             }).collect();
             let dn: Vec<Value> = w["names"].as_array().unwrap().iter().map(|d| { let (n, v) = defname_of(d.as_str().unwrap(), fmt); json!([n, v]) }).collect();
             build_xlsx(&json!({"prefix": nz["prefix"], "rel_prefix": nz["relp"], "date1904": d1904, "styles": {"cellStyleXfs": [0], "cellXfs": [0, 14]}, "sheets": sh, "defined_names": dn}))
@@ -100,8 +100,10 @@ pub fn run_one(w: &Value) -> Result<Value, String> {
             let mut book = xlsb::XlsbBook::default();
             book.is_1904 = d1904;
             book.xfs = vec![0, 14];
-            for s in sheets {
-                let body = vec![xlsb::row_hdr(0, 0, 0), xlsb::cell_record(0, 1, &xlsb::CellVal::Real(serial), &xlsb::PTG_INT_1)];
+            for (i, s) in sheets.iter().enumerate() {
+                // the date cell in every numeric encoding, sheet after sheet: real, cached formula result, RK integer
+                let cv = match i % 3 { 0 => xlsb::CellVal::Real(serial), 1 => xlsb::CellVal::FmlaNum(serial), _ => xlsb::CellVal::Rk(xlsb::rk_int(serial as i32, false)) };
+                let body = vec![xlsb::row_hdr(0, 0, 0), xlsb::cell_record(0, 1, &cv, &xlsb::PTG_INT_1)];
                 book.sheets.push(xlsb::XlsbSheet { name: name_of(s["name"].as_str().unwrap()), state: s["vis"].as_u64().unwrap() as u32, stream: xlsb::sheet_stream(&xlsb::Preamble::default(), (0, 0, 0, 0), &body) });
             }
             // kinds are expressed by the part folder in the relationships: rewrite the parts
@@ -151,10 +153,18 @@ pub fn run_one(w: &Value) -> Result<Value, String> {
             wb.date1904 = Some(d1904);
             wb.xfs = vec![0, 14];
             let high = w["noise"]["high"].as_bool().unwrap_or(false);
-            for s in sheets {
+            for (i, s) in sheets.iter().enumerate() {
                 let n = name_of(s["name"].as_str().unwrap());
                 let xs = if high { biff::XlStr::with_storage(&n, true) } else { biff::XlStr::new(&n) };
-                wb.sheets.push(biff::Sheet { name: xs, dims: None, recs: vec![biff::Rec::Number { r: 0, c: 0, xf: 1, v: serial }] });
+                // the date cell in every numeric encoding, sheet after sheet
+                let rk = crate::build::xlsb::rk_int(serial as i32, false);
+                let rec = match i % 4 {
+                    0 => biff::Rec::Number { r: 0, c: 0, xf: 1, v: serial },
+                    1 => biff::Rec::Formula { r: 0, c: 0, xf: 1, res: biff::FRes::Num(serial), shared: false },
+                    2 => biff::Rec::Rk { r: 0, c: 0, xf: 1, rk },
+                    _ => biff::Rec::MulRk { r: 0, c0: 0, items: vec![(1, rk), (1, rk)] },
+                };
+                wb.sheets.push(biff::Sheet { name: xs, dims: None, recs: vec![rec] });
             }
             let mut s = biff::workbook_stream(&wb);
             let st: Vec<(u8, u8)> = sheets.iter().map(|s| (s["vis"].as_u64().unwrap() as u8, match s["kind"].as_str().unwrap() { "macro" => 1, "chart" => 2, "vba" => 6, _ => 0 })).collect();
